@@ -155,6 +155,9 @@ class KModel(Model):
             if isinstance(v, Num):
                 return self.cast(v, cal, e)
             return NotImplemented
+        if name in ('num_traits::ToPrimitive::to_usize', 'num_traits::cast::ToPrimitive::to_usize') and isinstance(a0, Num):
+            # what `cast::<_, usize>(v)` does for a NumCast source (num-traits implements NumCast for usize through to_usize)
+            return self.cast(a0, dict(cal, gargs=[(cal.get('gargs') or ['T'])[0] if (cal.get('gargs') or ['T'])[0] != 'usize' else 'T', 'usize']), e)
         if name == 'num_traits::Euclid::rem_euclid':
             a, b = deref_all(args[0]), deref_all(args[1])
             nm = "rem_euclid(%s;%s)" % (a.r, b.r)
